@@ -2,7 +2,21 @@
 expect: 'violation' (property-breaking) or 'ok' (property-preserving refactor)."""
 T = "wannierberri/grid/tetrahedron.py"
 U_ = "wannierberri/utility.py"
+SM = "wannierberri/smoother.py"
+ER = "wannierberri/result/energyresult.py"
 MUTANTS = [
+    dict(prop="C17", name="dataSmooth: revert fix", file=ER, old="data_tmp = self.smoothers[i](data_tmp, axis=i)", new="data_tmp = self.smoothers[i](self.data, axis=i)"),
+    dict(prop="C17", name="dataSmooth: skips last axis", file=ER, old="for i in range(self.N_energies - 1, -1, -1):", new="for i in range(self.N_energies - 2, -1, -1):"),
+    dict(prop="C17", name="dataSmooth: wrong axis", file=ER, old="data_tmp = self.smoothers[i](data_tmp, axis=i)", new="data_tmp = self.smoothers[i](data_tmp, axis=0)"),
+    dict(prop="C17", name="smoother: end1 off by one", file=SM, old="end1 = self.NE1 + (end - i)", new="end1 = self.NE1 + (end - i) + 1"),
+    dict(prop="C17", name="smoother: window misaligned", file=SM, old="start1 = self.NE1 - (i - start)", new="start1 = self.NE1 - (i - start) + 1\n            end1 = 0"),
+    dict(prop="C17", name="smoother: not normalised at the edges", file=SM, old=" / self.smt[start1:end1].sum()", new=" / self.smt.sum()"),
+    dict(prop="C17", name="smoother: back-transpose wrong for axis>=1", file=SM, old="return res.transpose(tuple(range(1, axis + 1)) + (0,) + tuple(range(axis + 1, A.ndim)))",
+         new="return res.transpose(tuple(range(1, axis + 1))[::-1] + (0,) + tuple(range(axis + 1, A.ndim)))"),
+    dict(prop="C17", name="smoother: window one short on the right", file=SM, old="end = min(self.NE, i + self.NE1 + 1)", new="end = min(self.NE, i + self.NE1)"),
+    dict(prop="C17", name="void smoother copies... PRESERVING rename", file=SM, old="""            start = max(0, i - self.NE1)
+            end = min(self.NE, i + self.NE1 + 1)""", new="""            end = min(self.NE, i + self.NE1 + 1)
+            start = max(0, i - self.NE1)""", expect="ok"),
     dict(prop="C15", name="get_borders: > becomes >=", file=T, old="borders = [0] + list(np.where((A[1:] - A[:-1]) > degen_thresh)[0] + 1) + [len(A)]",
          new="borders = [0] + list(np.where((A[1:] - A[:-1]) >= degen_thresh)[0] + 1) + [len(A)]"),
     dict(prop="C15", name="get_borders: off by one (no +1)", file=T, old="borders = [0] + list(np.where((A[1:] - A[:-1]) > degen_thresh)[0] + 1) + [len(A)]",
